@@ -755,3 +755,53 @@ Definition sw_class (c : cfg) (fns : list N) (hmax : Z) : bool :=
   forallb (fun k => match q_depth (trig_of c k) with None => true | Some _ => false end
                     && negb (q_hide (trig_of c k))) fns
   && (hmax <=? gdepth c).
+
+(* ------------------------------------------------------------------ --tid and elapsed time ranges *)
+(* handle->time_range.first, the origin of the elapsed times (-r 100us~, -f elapsed); 0 = not set yet.
+   fstack_setup_task looks at the first record of EVERY task through update_first_timestamp before any record is
+   checked against the range: of the tasks --tid leaves out (they are closed right away) and - since the repair
+   of the origin in /repo - of the selected tasks as well (fstack_peek_first_timestamp). *)
+Definition upd_first (first t : N) : N := if (first =? 0)%N || (t <? first)%N then t else first.
+Definition first_step (a : N) (s : list rec) : N := match s with [] => a | r :: _ => upd_first a (r_time r) end.
+Definition setup_first (ss : list (list rec)) : N := fold_left first_step ss 0%N.
+
+(* the code as found: only the tasks that are left out were looked at during setup; an origin still unset was then
+   taken from the first timestamp handed to check_time_range: the first record of the first selected task that has
+   data (read_user_stack asks the tasks in the order of the info file) *)
+Fixpoint first_legacy_excl (sel : nat -> bool) (i : nat) (ss : list (list rec)) (a : N) : N :=
+  match ss with
+  | [] => a
+  | s :: r => first_legacy_excl sel (S i) r (if sel i then a else first_step a s)
+  end.
+Fixpoint first_legacy_lazy (sel : nat -> bool) (i : nat) (ss : list (list rec)) : N :=
+  match ss with
+  | [] => 0%N
+  | s :: r => match s with
+              | x :: _ => if sel i then r_time x else first_legacy_lazy sel (S i) r
+              | [] => first_legacy_lazy sel (S i) r
+              end
+  end.
+Definition setup_first_legacy (sel : nat -> bool) (ss : list (list rec)) : N :=
+  let a := first_legacy_excl sel 0 ss 0%N in
+  if (a =? 0)%N then first_legacy_lazy sel 0 ss else a.
+
+(* -r START~STOP as given: each end is a timestamp or (with a time unit) an elapsed time; 0 = end not given *)
+Record erange := { e_start : N; e_start_el : bool; e_stop : N; e_stop_el : bool }.
+Definition abs_end (first v : N) (el : bool) : N := if (v =? 0)%N then 0%N else if el then (first + v)%N else v.
+Definition with_range (c : cfg) (a b : N) : cfg :=
+  {| trig_of := trig_of c; fmode_in := fmode_in c; caller_filter := caller_filter c; gdepth := gdepth c;
+     threshold := threshold c; range_start := a; range_stop := b;
+     loc_of := loc_of c; lmode_in := lmode_in c; is_plt := is_plt c;
+     libcall := libcall c; no_merge := no_merge c |}.
+(* check_time_range: start_elapsed / stop_elapsed add the origin *)
+Definition resolve_range (c : cfg) (e : erange) (ss : list (list rec)) : cfg :=
+  let first := setup_first ss in
+  with_range c (abs_end first (e_start e) (e_start_el e)) (abs_end first (e_stop e) (e_stop_el e)).
+
+(* --tid: the tasks that are not listed are done before they start (task->done, file closed) *)
+Fixpoint tid_select_from (sel : nat -> bool) (i : nat) (ss : list (list rec)) : list (list rec) :=
+  match ss with
+  | [] => []
+  | s :: r => (if sel i then s else []) :: tid_select_from sel (S i) r
+  end.
+Definition tid_select (sel : nat -> bool) (ss : list (list rec)) : list (list rec) := tid_select_from sel 0 ss.
